@@ -6,6 +6,7 @@ import (
 	"fmt"
 	"os"
 	"path/filepath"
+	"runtime/debug"
 	"sort"
 	"strings"
 	"testing"
@@ -104,6 +105,8 @@ type Rep interface {
 }
 
 type base struct {
+	caseType string // regress directory / case shape ("C19", "C19Ann", ...), "" = same as id
+	self Rep // the H or P this base belongs to (lets finish report a panic of the code under test as a violation)
 	id         string
 	r          *stats.Rec
 	fp         strings.Builder
@@ -144,7 +147,9 @@ func (b *base) saveReplay(sig string) {
 	if out == "" || b.caseVal == nil {
 		return
 	}
-	doc := map[string]interface{}{"property": b.id, "sig": sig, "case": b.caseVal}
+	// "case_type": which run function the case belongs to (C19 has two, C18 two, C03 two): the regress test
+	// of that name replays it
+	doc := map[string]interface{}{"property": b.id, "sig": sig, "case_type": b.caseType, "case": b.caseVal}
 	if j, err := json.MarshalIndent(doc, "", " "); err == nil {
 		os.WriteFile(out, j, 0o644)
 	}
@@ -183,10 +188,18 @@ type summarizer interface{ Summary() interface{} }
 
 func (b *base) finish() {
 	if p := recover(); p != nil {
-		if _, ok := p.(excluded); !ok {
-			panic(p)
+		if _, ok := p.(excluded); ok {
+			return
 		}
-		return
+		// a panic raised by the code under test on the harness' own goroutine (a helper called directly) is a
+		// violation like any other - with a signature and a saved case - not a crash of the test
+		if st := string(debug.Stack()); b.self != nil && repoFrame(st) != "outside-repo" {
+			if _, isStr := p.(string); !isStr || !strings.Contains(fmt.Sprint(p), "VIOLATION-SIG") {
+				b.self.Violate("panic@"+repoFrame(st), "panic in the code under test: %v\n%s", p, st)
+				return
+			}
+		}
+		panic(p)
 	}
 	if !b.skipOuter {
 		b.r.Case(b.fp.String(), b.nontrivial)
@@ -206,7 +219,8 @@ func (b *base) finish() {
 func checkCases[C any](t *testing.T, id string, gen func(*rapid.T) C, run func(Rep, C)) {
 	r := rec(id)
 	rapid.Check(t, func(rt *rapid.T) {
-		h := &H{T: rt, base: base{id: id, r: r}}
+		h := &H{T: rt, base: base{id: id, r: r, caseType: strings.TrimPrefix(t.Name(), "Test")}}
+		h.self = h
 		defer h.finish()
 		c := gen(rt)
 		h.caseVal = c
@@ -227,6 +241,7 @@ func runSaved[C any](t *testing.T, id, path string, run func(Rep, C)) {
 		t.Fatalf("decode %s: %v", path, err)
 	}
 	p := &P{T: t, base: base{id: id, r: rec(id + "-replay")}}
+	p.self = p
 	defer p.finish()
 	p.caseVal = doc.Case
 	run(p, doc.Case)
@@ -242,7 +257,26 @@ func regress[C any](t *testing.T, id string, run func(Rep, C)) {
 	files, _ := filepath.Glob(filepath.Join(dir, id, "*.json"))
 	sort.Strings(files)
 	if rp := os.Getenv("VERIF_REPLAY"); rp != "" {
-		files = []string{rp}
+		// a replay file goes to the regress test of its case type; files that do not say are taken by the
+		// test whose directory they sit in, else by the property's main test
+		files = nil
+		var doc struct {
+			Property string `json:"property"`
+			CaseType string `json:"case_type"`
+		}
+		if b, err := os.ReadFile(rp); err == nil {
+			_ = json.Unmarshal(b, &doc)
+		}
+		ct := doc.CaseType
+		if ct == "" {
+			ct = filepath.Base(filepath.Dir(rp))
+			if !strings.HasPrefix(ct, doc.Property) || doc.Property == "" {
+				ct = doc.Property
+			}
+		}
+		if ct == id || (ct == "" && len(id) == 3) {
+			files = []string{rp}
+		}
 	}
 	for _, f := range files {
 		f := f
